@@ -477,7 +477,7 @@ def hasStarttls (cfg : Config) : Bool := cfg.kinds.any (· = .starttls)
 
 /-- the fault as an event on a quiescent state -/
 def inject (cfg : Config) (s : St) : St :=
-  if cfg.k ≥ totalLen cfg.items then s else
+  if cfg.k ≥ totalLen cfg.items || s.closedLocal then s else   -- nothing to inject on a connection already closed
   match cfg.fault with
   | .none => s
   | .eof => { s with tail := .eof }
